@@ -2,6 +2,7 @@ package coalesce
 
 import (
 	"fmt"
+	"os"
 	"os/user"
 	"reflect"
 	"sort"
@@ -55,7 +56,7 @@ func (c C15Case) Describe() string {
 
 var rawTypes = []uint16{1300, 1302, 1306, 1309, 1327, 1400, 1112, 1105, 1006}
 
-func genGroup(rt *rapid.T) Group {
+func genGroup(rt *rapid.T, caseType uint16) Group {
 	if rapid.IntRange(0, 4).Draw(rt, "rawgroup") == 0 {
 		var g Group
 		for i, n := 0, rapid.IntRange(1, 4).Draw(rt, "nraw"); i < n; i++ {
@@ -67,11 +68,20 @@ func genGroup(rt *rapid.T) Group {
 		}
 		return g
 	}
-	if rapid.IntRange(0, 3).Draw(rt, "kmodfirst") == 0 {
+	if rapid.IntRange(0, 2).Draw(rt, "kmodfirst") == 0 {
 		// a record type with its own ECS categories in front of a SYSCALL record: the event gets the categories of
 		// both normalisations, which is where events could end up sharing table storage
 		tk := &tokens{n: 100 * rapid.IntRange(0, 9000).Draw(rt, "tokenbase")}
-		first := genOtherRec(rt, tk, rapid.SampledFrom([]string{"kmod", "kmod", "avc", "apparmor"}).Draw(rt, "firstkind"), false)
+		var first kenc.Rec
+		if caseType != 0 && rapid.IntRange(0, 3).Draw(rt, "tablefirst") != 0 {
+			// a record type of the normalisation table that has ECS categories/types of its own; the same type
+			// for all such groups of one history, so that events that share a table entry meet
+			typ := caseType
+			first = kenc.Rec{Type: typ, Fields: []kenc.F{kenc.P("pid", tk.num()), kenc.P("uid", tk.num()), kenc.P("auid", tk.num()), kenc.P("ses", tk.num())},
+				User: []kenc.F{kenc.P("op", tk.s("op")), kenc.Q("acct", tk.s("acct")), kenc.P("res", "success")}}
+		} else {
+			first = genOtherRec(rt, tk, rapid.SampledFrom([]string{"kmod", "kmod", "avc", "apparmor"}).Draw(rt, "firstkind"), false)
+		}
 		sys := genSyscallRecNamed(rt, tk, rapid.SampledFrom([]string{"init_module", "finit_module", "delete_module", "open", "connect", "setuid", "nosuchsyscall"}).Draw(rt, "kmodsys"))
 		recs := []kenc.Rec{first, sys}
 		seq := rapid.Uint32().Draw(rt, "seq")
@@ -90,10 +100,50 @@ func genGroup(rt *rapid.T) Group {
 	return Group{Recs: recs}
 }
 
+var (
+	ecsTypesOnce sync.Once
+	ecsTypes     []uint16
+)
+
+// ecsRecordTypes lists the record types whose normalisation carries ECS categories or types (read from the
+// working tree's normalizations.yaml through the exported loader).
+func ecsRecordTypes() []uint16 {
+	ecsTypesOnce.Do(func() {
+		b, err := os.ReadFile("/repo/aucoalesce/normalizations.yaml")
+		if err != nil {
+			return
+		}
+		_, recordTypes, err := aucoalesce.LoadNormalizationConfig(b)
+		if err != nil {
+			return
+		}
+		var names []string
+		for name, norms := range recordTypes {
+			for _, n := range norms {
+				if len(n.ECS.Category.Values)+len(n.ECS.Type.Values) > 0 {
+					names = append(names, name)
+					break
+				}
+			}
+		}
+		sort.Strings(names)
+		for _, name := range names {
+			if t, err := auparse.GetAuditMessageType(name); err == nil && t != auparse.AUDIT_SYSCALL {
+				ecsTypes = append(ecsTypes, uint16(t))
+			}
+		}
+	})
+	return ecsTypes
+}
+
 func genC15(rt *rapid.T) C15Case {
 	var c C15Case
+	var caseType uint16
+	if types := ecsRecordTypes(); len(types) > 0 {
+		caseType = rapid.SampledFrom(types).Draw(rt, "casefirsttype")
+	}
 	for i, n := 0, rapid.IntRange(2, 6).Draw(rt, "ngroups"); i < n; i++ {
-		c.Groups = append(c.Groups, genGroup(rt))
+		c.Groups = append(c.Groups, genGroup(rt, caseType))
 	}
 	for i, n := 0, rapid.IntRange(2, 12).Draw(rt, "nops"); i < n; i++ {
 		c.Ops = append(c.Ops, Op15{K: rapid.SampledFrom([]string{"coalesce", "coalesce", "coalesce", "resolve", "resolvecaches"}).Draw(rt, "k"),
